@@ -108,6 +108,18 @@ fn main() {
                 cases.push((format!("rand:{seed}:{i}"), suite.gen(&mut r, tier, i, &focus)));
             }
 
+            if arg(&args, "--gen-only").is_some() {
+                // write the inputs only (used when a case aborts the process: each case is then
+                // replayed in its own process)
+                let mut f_in = std::io::BufWriter::new(fs::File::create(out_dir.join(format!("{suite_name}.in"))).unwrap());
+                for (k, (origin, lines)) in cases.iter().enumerate() {
+                    writeln!(f_in, "case {k} {origin}").unwrap();
+                    for l in lines {
+                        writeln!(f_in, "{l}").unwrap();
+                    }
+                }
+                return;
+            }
             let mut f_in = std::io::BufWriter::new(fs::File::create(out_dir.join(format!("{suite_name}.in"))).unwrap());
             let mut f_impl = std::io::BufWriter::new(fs::File::create(out_dir.join(format!("{suite_name}.impl"))).unwrap());
             let mut f_or = std::io::BufWriter::new(fs::File::create(out_dir.join(format!("{suite_name}.oracle"))).unwrap());
